@@ -65,8 +65,11 @@ CLAIMED = {
              "announcement (or the run stops on the assertion). Call-site claims (selected pair announced before CONNECTED/READY, "
              "gathering-done once per run, silence after remove_stream) are not proved: they are evaluated on simulated API "
              "histories of two real agents (restart, stream restart, remove/re-add, consent loss, blackouts) and every announced "
-             "sequence is replayed through the Lean choke-point model.",
-        note="Trusted: Lean kernel, extract.py table regeneration, hand-written choke-point model, sim_drv harness.",
+             "sequence is replayed through the Lean choke-point model. One call-site claim IS proved on code regenerated from the "
+             "source on every run: in agent_gathering_done completion is announced only when the discovery timer is gone, i.e. no "
+             "discovery item of any stream is scheduled or in flight (C11_completion_needs_no_pending_discovery, skeleton "
+             "Nice/Gen/GatheringDone.lean).",
+        note="Trusted: Lean kernel, extract.py table regeneration, extract_flow.py skeleton translator, hand-written choke-point model, sim_drv harness.",
         technique="Lean 4 proof over source-regenerated transition table + trace replay through the model + simulation",
         design="5/C11"),
     "C13": dict(
